@@ -149,9 +149,9 @@ Section Exchange.
 
   Definition final_procs (ls : list lst) (P : nat) := rounds 0 P (procs (init_net ls P)).
 
-  (* number of steps of the whole run *)
-  Fixpoint total_steps (n p k : nat) : nat :=
-    match k with O => 0 | S k' => (n + 10 * length (row_of p) + n) + total_steps n (S p) k' end.
+  (* number of steps of the whole run; c = steps of one exchange (10 with buffered pipes, 6 with synchronous ones) *)
+  Fixpoint total_steps (c n p k : nat) : nat :=
+    match k with O => 0 | S k' => (n + c * length (row_of p) + n) + total_steps c n (S p) k' end.
 
   (* well-formed schedule: in every row the chains are distinct and exist *)
   Fixpoint flat (r : row) : list nat := match r with [] => [] | (s, m) :: t => s :: m :: flat t end.
